@@ -43,8 +43,13 @@ func (t *verifFragTransport) RoundTrip(req *http.Request) (*http.Response, error
 	if err != nil {
 		return nil, err
 	}
-	t.seed = t.seed*6364136223846793005 + 1442695040888963407
-	resp.Body = &verifFragBody{data: data, s: t.seed}
+	// the per-request seed depends on the seed and the path only: no shared state, so
+	// concurrent fetches are safe and each file's fragmentation is independent of fetch order
+	s := t.seed
+	for _, c := range []byte(req.URL.Path) {
+		s = (s ^ uint64(c)) * 1099511628211
+	}
+	resp.Body = &verifFragBody{data: data, s: s*6364136223846793005 + 1442695040888963407}
 	return resp, nil
 }
 
